@@ -39,3 +39,16 @@ Example ex_dt2 : to_datetime (mkTstz (mkTs (-2) 500000) (bs "+0530")) = Ok (mkDt
 Proof. vm_compute. reflexivity. Qed.
 
 Example ex_range : z_range (-2) 5 = [-2; -1; 0; 1; 2]. Proof. vm_compute. reflexivity. Qed.
+
+(* both the recorded bytes and the legacy numeric form: the bytes are kept as they are *)
+Example ex_both1 : from_dict (TRDict (Some (TsInt (VInt 7))) (Some (Some (bs "+200"))) (Some (Some 120)) (Some false))
+                   = Ok (mkTstz (mkTs 7 0) (bs "+200")).
+Proof. vm_compute. reflexivity. Qed.
+Example ex_both2 : from_dict (TRDict (Some (TsInt (VInt 7))) (Some (Some (bs "-0000"))) (Some (Some 5)) (Some true))
+                   = Ok (mkTstz (mkTs 7 0) (bs "-0000")).
+Proof. vm_compute. reflexivity. Qed.
+Example ex_old_only : from_dict (TRDict (Some (TsInt (VInt 7))) None (Some (Some 120)) None)
+                   = Ok (mkTstz (mkTs 7 0) (bs "+0200")).
+Proof. vm_compute. reflexivity. Qed.
+Example ex_old_null : from_dict (TRDict (Some (TsInt (VInt 7))) None (Some None) None) = Err EType.
+Proof. vm_compute. reflexivity. Qed.
